@@ -29,6 +29,8 @@ def rand_header(rng):
 def make_keys(S, suite, n, label="triv:keygen"):
     rng = S.rng; lines = []
     infos = [None, b"", b"\x01", rb(rng, 255), rb(rng, 256)]
+    # C01's own keys: also the largest key_info the 2-octet length prefix admits (65535 octets) and the one below: a key pair exists and signs
+    if label == "keygen": infos = [rb(rng, 65535), rb(rng, 65534)] + infos
     for i in range(n):
         ikm = rb(rng, rng.choice([32, 33, 48, 64, 100, 128]))
         ki = infos[i % len(infos)]
@@ -278,6 +280,14 @@ class C03:
                 if len(p["proof"]) != 272 + 32 * U:
                     fail(S, "proof-length", "len=%d U=%d" % (len(p["proof"]), U), [p["proof"].hex()])
             S.run([pv_line(p) for p in proofs], expect="ok", label="proofverify(proofgen)")
+            # "disclose nothing" spelled as an ABSENT index list (messages present): the same proof shape as the empty list
+            ab_ = [f for f in flows if 1 <= len(f["msgs"]) <= 10][:4]
+            ra_ = S.run(["proofgen %s %s %s %s N %s N" % (f["suite"], tb(f["pk"]), tb(f["sig"]), tob(f["header"]), tl(f["msgs"])) for f in ab_], expect="ok", label="proofgen(absent index list)")
+            for f, r in zip(ab_, ra_):
+                if r.status != "OK": continue
+                if len(r.b(0)) != 272 + 32 * len(f["msgs"]): fail(S, "proof-length", "absent index list: len=%d for L=%d hidden messages" % (len(r.b(0)), len(f["msgs"])), [r.b(0).hex()])
+                S.run(["proofverify %s %s %s N N %s N" % (f["suite"], tb(f["pk"]), tb(r.b(0)), tob(f["header"])),
+                       "proofverify %s %s %s L I %s N" % (f["suite"], tb(f["pk"]), tb(r.b(0)), tob(f["header"]))], expect="ok", label="proofverify(proofgen(absent index list))")
             dres = S.run(["dec proof %s" % tb(p["proof"]) for p in proofs], expect="ok", label="proof-roundtrip")
             for p, r in zip(proofs, dres):
                 if r.status == "OK" and r.b(0) != p["proof"]:
@@ -553,7 +563,7 @@ class C05:
         shapes = [(L, M, "rand") for L in range(small + 1) for M in range(small + 1)]
         shapes += [(0, None, "rand"), (2, None, None), (5, None, b""), (2, "absent", "rand"), (0, "absent", None)]
         # signer-message counts on both sides of 16 and 32 (a multi-scalar fast path switched on by the count would sit there)
-        shapes += [(5, 4, "rand"), (10, 1, "rand"), (1, 10, "rand"), (15, 1, "rand"), (16, 1, "rand"), (17, None, "rand"), (33, 0, "rand")] + ([(17, 17, "rand"), (31, 2, "rand"), (32, 2, "rand"), (33, 8, "rand"), (64, 64, "rand"), (65, 1, "rand"), (129, 3, "rand")] if tier != "quick" else [])
+        shapes += [(5, 4, "rand"), (10, 1, "rand"), (1, 10, "rand"), (15, 1, "rand"), (16, 1, "rand"), (17, None, "rand"), (33, 0, "rand"), (60, 5, "rand")] + ([(17, 17, "rand"), (31, 2, "rand"), (32, 2, "rand"), (33, 8, "rand"), (64, 64, "rand"), (65, 1, "rand"), (129, 3, "rand")] if tier != "quick" else [])
         stats = {"shapes": len(shapes), "pairs": 0}
         for suite in SUITES:
             keys = make_keys(S, suite, 3)
@@ -650,6 +660,10 @@ class C06:
                 for kind, m2 in msg_mutations(rng, f["msgs"])[:4]: add(bv_line(f, msgs=m2), "bv:signer-" + kind)
                 b2 = pyc.sc((int.from_bytes(f["blind"], "big") + 1) % pyc.R)
                 add(bv_line(f, blind=b2), "bv:blind"); add(bv_line(f, blind=None), "bv:blind-absent")
+                # the same factor as a NON-CANONICAL octet string (value + r, when it fits 32 octets) is not the factor
+                bi_ = int.from_bytes(f["blind"], "big")
+                for k_ in (1, 2):
+                    if bi_ + k_ * pyc.R < 2 ** 256: add(bv_line(f, blind=(bi_ + k_ * pyc.R).to_bytes(32, "big")), "bv:blind-plus-r")
                 for h2 in header_mutations(rng, f["header"])[:2]: add(bv_line(f, header=h2), "bv:header")
                 for sk2, pk2 in keys:
                     if pk2 != f["pk"]: add(bv_line(f, pk=pk2), "bv:pk")
@@ -664,6 +678,9 @@ class C06:
                 for cm_ in ([b"never committed"], [b"", b"x"], [b""]):
                     for bl_ in (None, bytes(31) + b"\1"):
                         add(bv_line(f0, cm=cm_, blind=bl_), "bv:no-commitment-signature-with-committed-list")
+                # ... nor with a blinding-factor string that is zero modulo r (r itself, 2r): only the canonical strings are factors
+                for bl_ in (pyc.R.to_bytes(32, "big"), (2 * pyc.R).to_bytes(32, "big"), b"\xff" * 32):
+                    add(bv_line(f0, cm=[], blind=bl_), "bv:no-commitment-signature-with-noncanonical-blind")
             S.run(lines, expect="err", label=labels)
             # blind proofs
             tr = []
